@@ -19,7 +19,7 @@ from concurrent.futures import ThreadPoolExecutor
 VERIF = os.path.dirname(os.path.dirname(os.path.abspath(__file__)))
 REPO = os.environ.get("VERIF_REPO", "/repo")
 QLX = os.path.join(VERIF, ".build", "qlx")
-CACHE = os.path.join(VERIF, ".cache")
+CACHE = os.environ.get("VERIF_CACHE_DIR") or os.path.join(VERIF, ".cache")
 
 # The one front-end discrepancy between g++ (the real build) and clang 14: qRegisterMetaType<LogMessage>()
 # instantiates QMetaTypeFunctionHelper<LogMessage>::Construct, whose `new (where) T` needs the implicitly
